@@ -65,6 +65,72 @@ class EdgeView(Model):
         return list(iter(self))
 
 
+class NbrView(Model):
+    """Live view of one node's neighbours (networkx AtlasView): G.succ[n], G.pred[n], G[n]."""
+
+    def __init__(self, g, which, n):
+        self._g, self._which, self._n = g, which, n
+
+    def _d(self):
+        d = getattr(self._g, self._which)
+        if self._n not in d:
+            raise ModelRaise("KeyError", f"node {self._n!r}")
+        return d[self._n]
+
+    def __len__(self):
+        return len(self._d())
+
+    def __iter__(self):
+        return iter(list(self._d()))
+
+    def __contains__(self, x):
+        return x in self._d()
+
+    def __getitem__(self, x):
+        if x not in self._d():
+            raise ModelRaise("KeyError", f"edge to {x!r}")
+        return {}
+
+    def keys(self):
+        return list(self._d())
+
+    def items(self):
+        return [(k, {}) for k in self._d()]
+
+    def values(self):
+        return [{} for _ in self._d()]
+
+    def __bool__(self):
+        return bool(self._d())
+
+
+class AdjView(Model):
+    """Live view G.succ / G.pred / G.adj."""
+
+    def __init__(self, g, which):
+        self._g, self._which = g, which
+
+    def __getitem__(self, n):
+        if n not in self._g._node:
+            raise ModelRaise("KeyError", f"node {n!r}")
+        return NbrView(self._g, self._which, n)
+
+    def __contains__(self, n):
+        return n in self._g._node
+
+    def __iter__(self):
+        return iter(list(self._g._node))
+
+    def __len__(self):
+        return len(self._g._node)
+
+    def keys(self):
+        return list(self._g._node)
+
+    def items(self):
+        return [(n, NbrView(self._g, self._which, n)) for n in self._g._node]
+
+
 class MDiGraph(Model):
     def __init__(self, incoming=None):
         self._node = {}
@@ -92,13 +158,15 @@ class MDiGraph(Model):
 
     @property
     def pred(self):
-        return {n: dict(self._pred[n]) for n in self._node}
+        return AdjView(self, "_pred")
 
     @property
     def succ(self):
-        return {n: dict(self._succ[n]) for n in self._node}
+        return AdjView(self, "_succ")
 
-    adj = succ
+    @property
+    def adj(self):
+        return AdjView(self, "_succ")
 
     def __contains__(self, n):
         try:
@@ -113,7 +181,9 @@ class MDiGraph(Model):
         return len(self._node)
 
     def __getitem__(self, n):
-        return dict(self._succ[n])
+        if n not in self._node:
+            raise ModelRaise("KeyError", f"node {n!r}")
+        return NbrView(self, "_succ", n)
 
     def number_of_nodes(self):
         return len(self._node)
